@@ -299,15 +299,17 @@ func genAuthNeeded(o *Out, tier string, r *Rng) {
 }
 
 // neededCaseVariants: member events under test whose content spells `membership` / `join_authorised_via_users_server`
-// in another letter case, in rooms where the verdict hangs on exactly the state those keys make StateNeededForAuth name
-// (the join rules for a join; the authorising user's membership for a restricted join).  encoding/json folds case when
-// the auth check decodes the content, so StateNeededForAuth has to name the same state (seeded change C09-r4m2: it read
-// the keys exactly, the restricted provider lost the join rules and the verdict changed).
+// another way (Capitalised, UPPER, one letter raised, U+017F for an s) — alone, or next to the exact name with another
+// value — in rooms where the verdict hangs on exactly the state those keys make StateNeededForAuth name (the join rules
+// for a join; the authorising user's membership for a restricted join).  Member names are exact for the auth check
+// (NewMemberContentFromEvent) and for StateNeededForAuth alike: both have to ignore the other spellings, and
+// StateNeededForAuth has to name the state the check reads (seeded change C09-r4m2: it read the keys differently from
+// the check, the restricted provider lost the join rules and the verdict changed).
 func neededCaseVariants(o *Out, r *Rng) {
 	cr := authUsers[0]
 	for _, ver := range allVersions {
 		verImpl := gmsl.MustGetRoomVersion(gmsl.RoomVersion(ver))
-		for _, key := range []string{"Membership", "MEMBERSHIP", "membershiP"} {
+		for _, key := range []string{"Membership", "MEMBERSHIP", "membershiP", "memberſhip", "membership"} {
 			g := NewRoomGen(r, ver)
 			cc := map[string]interface{}{"room_version": ver}
 			if !verImpl.PrivilegedCreators() {
@@ -324,7 +326,13 @@ func neededCaseVariants(o *Out, r *Rng) {
 			pl := g.Mk(spec.MRoomPowerLevels, cr, sp(""), map[string]interface{}{"users": users, "invite": 50}, nil, nil, nil)
 			// (a) a join in a public room
 			jr := g.Mk(spec.MRoomJoinRules, cr, sp(""), map[string]interface{}{"join_rule": "public"}, nil, nil, nil)
-			join := g.Mk(spec.MRoomMember, "@alice:hs1", sp("@alice:hs1"), map[string]interface{}{key: "join"}, []string{"$p:hs1"}, nil, nil)
+			// the variant alone ({"Membership":"join"}: no membership), or next to the exact name with another value
+			// (before it in the JSON text for the spellings with an upper-case letter, after it for the U+017F one)
+			jc := map[string]interface{}{key: "join"}
+			if key == "membership" || r.Chance(35) {
+				jc = map[string]interface{}{"membership": Pick(r, []string{"join", "leave", "invite"}), r.otherSpelling("membership"): Pick(r, []string{"join", "leave", "knock"})}
+			}
+			join := g.Mk(spec.MRoomMember, "@alice:hs1", sp("@alice:hs1"), jc, []string{"$p:hs1"}, nil, nil)
 			if jr != nil && pl != nil && join != nil {
 				s := &AuthScenario{G: g, Auth: []*Ev{create, pl, jr, memberEv(g, cr, "join")}, Event: join}
 				o.Count("needed.casevariant.public." + o.Do("needed", neededArgs(s, unrelatedEvents(g, r))...))
@@ -332,8 +340,16 @@ func neededCaseVariants(o *Out, r *Rng) {
 			// (b) a restricted join authorised by a joined user with the power to invite
 			rj := g.Mk(spec.MRoomJoinRules, cr, sp(""), map[string]interface{}{"join_rule": "restricted",
 				"allow": []map[string]interface{}{{"type": "m.room_membership", "room_id": "!other:hs1"}}}, nil, nil, nil)
-			akey := Pick(r, []string{"Join_authorised_via_users_server", "JOIN_AUTHORISED_VIA_USERS_SERVER", "join_authorised_via_users_server"})
-			rjoin := g.Mk(spec.MRoomMember, "@alice:hs1", sp("@alice:hs1"), map[string]interface{}{key: "join", akey: "@auth:hs1"}, []string{"$p:hs1"}, nil, nil)
+			akey := Pick(r, []string{"Join_authorised_via_users_server", "JOIN_AUTHORISED_VIA_USERS_SERVER", "join_authoriſed_via_users_server", "join_authorised_via_users_server"})
+			rc := map[string]interface{}{key: "join", akey: "@auth:hs1"}
+			if r.Chance(35) {
+				rc["join_authorised_via_users_server"] = Pick(r, []string{"@auth:hs1", cr, ""})
+				rc[r.otherSpelling("join_authorised_via_users_server")] = Pick(r, []string{"@auth:hs1", cr})
+			}
+			if r.Chance(20) {
+				rc[r.otherSpelling("third_party_invite")] = map[string]interface{}{"signed": map[string]interface{}{"token": "tok1", "mxid": "@alice:hs1"}}
+			}
+			rjoin := g.Mk(spec.MRoomMember, "@alice:hs1", sp("@alice:hs1"), rc, []string{"$p:hs1"}, nil, nil)
 			if rj != nil && pl != nil && rjoin != nil {
 				s := &AuthScenario{G: g, Auth: []*Ev{create, pl, rj, memberEv(g, "@auth:hs1", "join")}, Event: rjoin}
 				o.Count("needed.casevariant.restricted." + o.Do("needed", neededArgs(s, unrelatedEvents(g, r))...))
